@@ -79,8 +79,14 @@ func NewSession(user []*ref.Fun) *Session {
 		s.TEnv.RegisterFun(f.Type)
 		s.VEnv.RegisterFun(f)
 	}
+	seen := map[*ref.Fun]*val.Val{}
 	for _, f := range user {
-		v := s.hostFun(f)
+		v, dup := seen[f]
+		if !dup {
+			v = s.hostFun(f)
+			seen[f] = v
+		}
+		// (the same *ref.Fun listed twice registers one function VALUE twice)
 		s.UserVals = append(s.UserVals, v)
 		s.TEnv.RegisterFun(v.Type)
 		s.VEnv.RegisterFun(v)
@@ -104,6 +110,19 @@ func (s *Session) Register(fs ...*ref.Fun) {
 // body the reference uses.
 func (s *Session) hostFun(f *ref.Fun) *val.Val {
 	ty := ToFunType(f.Name, f.Params, f.Ret)
+	if f.User == "push" {
+		// the one host function that really mutates the value it is handed
+		return val.Fun(ty, func(args ...*val.Val) *val.Val {
+			a0, _ := FromVal(args[0], nil)
+			a1, _ := FromVal(args[1], nil)
+			if a0 != nil && a1 != nil {
+				s.cur.Trace = append(s.cur.Trace, ref.TraceEntry{Fn: "push", Args: ref.Show(a0) + ":" + a0.T.Canon() + ", " + ref.Show(a1) + ":" + a1.T.Canon()})
+			}
+			l := args[0].List()
+			l.V = append(l.V, args[1])
+			return args[0]
+		})
+	}
 	impl := func(args ...*val.Val) *val.Val {
 		obs := s.cur
 		rargs := make([]ref.Arg, len(args))
@@ -147,13 +166,14 @@ func (s *Session) hostFun(f *ref.Fun) *val.Val {
 
 // Parsed is the front half of the pipeline.
 type Compiled struct {
-	Src   string
-	Type  *types.Type
-	Run   func(env *val.Env) *val.Val
-	Sess  *Session
-	Back  Backend
-	Tree  ast.Expr // desugared, checked tree
-	Stage string
+	Src    string
+	Type   *types.Type
+	Run    func(env *val.Env) *val.Val
+	RunRaw func(rt *val.Env) *val.Val
+	Sess   *Session
+	Back   Backend
+	Tree   ast.Expr // desugared, checked tree
+	Stage  string
 }
 
 // CompileErr is a compile-time rejection, with the stage that produced it.
@@ -209,6 +229,7 @@ func (s *Session) CompileTree(tree ast.Expr, tenv *types.Env, b Backend) (*Compi
 	}
 	c.Tree = de
 	c.Run = func(env *val.Env) *val.Val { return cl(env.Inherit(s.VEnv)) }
+	c.RunRaw = func(rt *val.Env) *val.Val { return cl(rt) }
 	return c, nil
 }
 
@@ -260,6 +281,29 @@ func Classify(msg string) OutClass {
 		return OLimit
 	}
 	return OInternal
+}
+
+// Bind creates the run-time environment object a compiled program runs on;
+// ExecOn runs on such an object (which the caller may re-bind with Put
+// between runs).
+func (c *Compiled) Bind(env *val.Env) *val.Env { return env.Inherit(c.Sess.VEnv) }
+
+func (c *Compiled) ExecOn(rt *val.Env) (res Result) {
+	obs := &Obs{}
+	c.Sess.cur = obs
+	res.Obs = obs
+	defer func() {
+		if r := recover(); r != nil {
+			res.Msg = fmt.Sprint(r)
+			res.Class = Classify(res.Msg)
+			if len(obs.HostErrs) > 0 {
+				res.Class = OInternal
+			}
+		}
+	}()
+	res.Val = c.RunRaw(rt)
+	res.Class = OValue
+	return
 }
 
 // Exec runs a compiled program on one run-time environment.
